@@ -408,6 +408,8 @@ class C13(Check):
                     return "TIE: float near-tie (reproduced when every LP optimum is nudged by 1e-10)"
                 if json.dumps(model["outs"][n], sort_keys=True) != json.dumps(model["alt"][n], sort_keys=True):
                     return "TIE: tie-sensitive step resolved in a mixed way"
+                if "contract" in io and K.has_residue_term(io["contract"]):
+                    return "TIE: float cancellation residue (the implementation's result has a term whose every coefficient is below 1e-9)"
                 return f"step {n} ({op['k']}): impl {str(io)[:300]} vs model {str(model['outs'][n])[:300]}"
         return None
 
